@@ -63,6 +63,48 @@ fn nonce_case(ctx: &mut Ctx, idx: usize, k: usize) {
     }
 }
 
+/// 256-bit little-endian addition of `k·q` to a canonical scalar encoding (None on overflow)
+fn plus_kq(b: &[u8; 32], k: u32) -> Option<[u8; 32]> {
+    const Q: [u64; 4] = [0xffff_ffff_0000_0001, 0x53bd_a402_fffe_5bfe, 0x3339_d808_09a1_d805, 0x73ed_a753_299d_7d48];
+    let mut l = [0u64; 4];
+    for i in 0..4 { let mut a = [0u8; 8]; a.copy_from_slice(&b[8 * i..8 * i + 8]); l[i] = u64::from_le_bytes(a); }
+    for _ in 0..k {
+        let mut carry = 0u128;
+        for i in 0..4 { let t = l[i] as u128 + Q[i] as u128 + carry; l[i] = t as u64; carry = t >> 64; }
+        if carry != 0 { return None; }
+    }
+    let mut out = [0u8; 32];
+    for i in 0..4 { out[8 * i..8 * i + 8].copy_from_slice(&l[i].to_le_bytes()); }
+    Some(out)
+}
+
+/// byte strings that are *not* canonical scalar encodings, in the nonce position: every one must be refused —
+/// in particular the ones congruent to the close tag mod q
+fn noncanonical_nonce_case(ctx: &mut Ctx, idx: usize) {
+    if !ctx.begin_case(idx, "nonce-noncanonical-encodings") {
+        return;
+    }
+    let mut inputs: Vec<(&str, [u8; 32])> = vec![];
+    for (what, s) in [("close-tag", CLOSE_SCALAR), ("close-tag+1", CLOSE_SCALAR + Scalar::one()), ("zero", Scalar::zero()), ("one", Scalar::one()), ("random", rand_scalar(&mut ctx.prng))] {
+        for k in 1..=2u32 {
+            if let Some(b) = plus_kq(&s.to_bytes(), k) { inputs.push((what, b)); }
+        }
+    }
+    inputs.push(("all-ones", [0xff; 32]));
+    for (what, b) in inputs {
+        ctx.evals += 1;
+        let r = wire::de::<Nonce>(&b);
+        ctx.count(&format!("nonce-decode:noncanonical-{}:{}", what, if r.is_ok() { "ACCEPTED" } else { "refused" }));
+        if let Ok(n) = r {
+            let is_close = zkabacus_crypto::verif_hooks::nonce_as_scalar(&n) == CLOSE_SCALAR;
+            ctx.violation(
+                &format!("a non-canonical 32-byte string (congruent to {} mod q) decodes as a nonce{}", what, if is_close { " whose scalar IS the close tag: state and close-state messages coincide" } else { "" }),
+                json!({"class": if is_close { "decoded-nonce-is-close-tag" } else { "noncanonical-nonce-accepted" }, "bytes": hex::encode(b)}),
+            );
+        }
+    }
+}
+
 fn swap_case(ctx: &mut Ctx, idx: usize, w: &World) {
     if !ctx.begin_case(idx, "token-vs-closing-signature") {
         return;
@@ -174,6 +216,7 @@ pub fn run(ctx: &mut Ctx) {
             nonce_case(ctx, idx, k);
         }
     }
+    idx += 1; noncanonical_nonce_case(ctx, idx);
     let w = match world(ctx, false) { Some(w) => w, None => return };
     let w2 = match world(ctx, false) { Some(w) => w, None => return };
     let n = if ctx.thorough() { 12 * ctx.nshards } else { ctx.nshards };
